@@ -263,8 +263,9 @@ func h2Scenario1(seed int64, idx int, dir string, acts []h2Act, ca *harnessCA, c
 	grantC := 65535
 	initWin := 65535
 	maxFrame := uint32(16384)
-	var aMaxFrame atomic.Int64
+	var aMaxFrame, aInitWin atomic.Int64
 	aMaxFrame.Store(16384)
+	aInitWin.Store(65535)
 	var bmu sync.Mutex
 	expHdr := map[uint32][][]hpack.HeaderField{}
 	expES := map[uint32][]bool{}
@@ -412,7 +413,13 @@ func h2Scenario1(seed int64, idx int, dir string, acts []h2Act, ca *harnessCA, c
 					sc.log("a_ack")
 				}
 				if !f.IsAck() {
-					sc.log("a_settings")
+					iw := -1
+					if v, ok := f.Value(http2.SettingInitialWindowSize); ok {
+						// the initial stream window a conforming A uses towards the relay from now on
+						iw = int(v)
+						aInitWin.Store(int64(v))
+					}
+					sc.log("a_settings", "iw", iw)
 					if v, ok := f.Value(http2.SettingMaxFrameSize); ok {
 						aMaxFrame.Store(int64(v)) // the frame size A has been told it may use from now on
 					}
@@ -680,6 +687,10 @@ func h2Scenario1(seed int64, idx int, dir string, acts []h2Act, ca *harnessCA, c
 		sc.problem(fmt.Sprintf("C09:credit: %d flow-controlled octets sent on the connection, %d credited back", sentFCc, credC))
 	}
 	amu.Unlock()
+	// H2Relay.tla NotStarved: the window a conforming sender may use on a stream is never below the one it began with
+	if iw := aInitWin.Load(); iw < 65535 {
+		sc.problem(fmt.Sprintf("C09:starved: the relay told the sender to use an initial stream window of %d octets (the receiver's setting, passed on) - the receiver's WINDOW_UPDATEs never reach the sender, so its windows stay at that", iw))
+	}
 	sc.mu.Lock()
 	evs := append([]map[string]any{}, sc.evs...)
 	probs := append([]string{}, sc.problems...)
